@@ -6,6 +6,7 @@ import (
 	"fmt"
 	"io/ioutil"
 	"os"
+	"runtime/debug"
 	"sort"
 	"strconv"
 )
@@ -82,6 +83,8 @@ func main() {
 		os.Exit(replay(os.Args[2]))
 	case "selftest":
 		os.Exit(selftest())
+	case "selftest-race":
+		os.Exit(selftestRace())
 	default:
 		usage()
 	}
@@ -114,6 +117,7 @@ func replay(path string) int {
 	if rep.BuildMode != buildMode {
 		fmt.Printf("note: recorded in the %s build, replaying in the %s build\n", rep.BuildMode, buildMode)
 	}
+	debug.SetPanicOnFault(true)
 	ctx := newCtx(def.ID, rep.Tier, rep.Seed)
 	ctx.Verbose = true
 	ctx.curCase = rep.CaseIdx
